@@ -329,8 +329,10 @@ class C08(TraceCheck):
             "value-caused exception of the body, by an exception injected at a statement boundary or "
             "at the n-th backend seam call; oracle after every statement and in a finally after every "
             "region: snapshot model of (guard, error mode, ONE) by identity, conjunction of enclosing "
-            "condition values inside. non-trivial = distinct (plan, fault schedule) in which at least "
-            "one region was actually left (by return or exception)")
+            "condition values inside; one plan in eight ends with a region whose function keeps block variables of "
+            "its own with an _if block that an exception leaves open (the abandoned object is collected at fixed "
+            "points of the schedule and the model is evaluated again). non-trivial = distinct (plan, fault "
+            "schedule) in which at least one region was actually left (by return or exception)")
 
     def cfg(self, rng):
         c = swarm_cfg(rng, self.backends, fxp_p=0.2, bits=(3, 4, 6, 8))
@@ -1261,7 +1263,9 @@ class C16(ProverCheck):
             "cannot satisfy the circuit. (b) packer schemas of depth <= 3 from PackBool / PackIntMod / "
             "PackList / PackRepeat with plain and secret leaves: pack then unpack returns the original "
             "leaves, the number of bits equals bitlen(), out-of-range plain leaves raise ValueError, the "
-            "trace is satisfied and lies on hint wires cannot move an unpacked secret leaf. non-trivial = "
+            "trace is satisfied and lies on hint wires cannot move an unpacked secret leaf; histories: the packer "
+            "object was first given a record it refused half-way (caught), the width calls once more under the "
+            "backend without a proof system in a fresh interpreter. non-trivial = "
             "distinct (schema or width, value vector) pairs that reached a verdict")
 
     def gen_schema(self, rng, depth, budget):
@@ -3280,7 +3284,9 @@ class C09(TraceCheck):
             "comparison results on secrets; executed (a) traced, (b) as a native-control-flow twin generated from "
             "the same plan on plain ints, (c) traced on a second input vector. oracle: final tracked variables "
             "equal the native twin's (same exception class if it raises), every emitted constraint satisfied, "
-            "identical constraint system across the two input vectors, no block left open. non-trivial = distinct "
+            "identical constraint system across the two input vectors, no block left open; 5 % of the plans are "
+            "retry histories: one loop (one source line, one BranchingValues object) run 3-6 times, some runs "
+            "abandoned by an exception the program catches, the loop closed in a finally. non-trivial = distinct "
             "plans containing at least one block whose traced run completed")
 
     def cfg(self, rng):
@@ -3729,8 +3735,9 @@ class C17(TraceCheck):
             "output's public value alone must violate some constraint; a third of the calls sit inside a region "
             "guarded by a secret condition - under a true guard everything above applies, under a false guard "
             "the arguments are published exactly, one public output per secret result, and the returned leaves "
-            "equal those outputs. non-trivial = distinct (argument "
-            "structure, result structure) pairs whose call completed")
+            "equal those outputs; in a fifth of the histories with two or more calls an earlier call is abandoned by "
+            "an exception of the wrapped function itself (caught), the calls after it are judged as usual. "
+            "non-trivial = distinct (argument structure, result structure) pairs whose call completed")
 
     def cfg(self, rng):
         return {"backend": rng.choice(W.DICT_BACKENDS), "bitlength": rng.choice([8, 16]),
